@@ -2,10 +2,13 @@ import CollectionsC.Properties.C09Stack
 /-! # C15 (stack part) — `cc_stack_filter` yields an exact, independent, usable stack
 
 Statements only.  The result holds exactly the live elements satisfying the predicate, bottom to top;
-it satisfies the invariant, is allocated through the source's allocators (every allocation of the
-model goes through the same `Mem`) and carries the *default* capacity and expansion factor (what
-`cc_stack_filter` configures — the allocators are inherited, the growth settings are the library
-defaults), so it is a fully usable stack that can grow.  The source is not changed: the function
+it satisfies the invariant and is a fully usable stack that can grow.  **What is inherited** (checked
+against `cc_stack.c`: `cc_stack_conf_init(&conf); conf.mem_alloc = stack->mem_alloc; …`): the allocator
+triple — header, inner array and every growth step of the result go through the source's allocators
+(`filter_inherits_allocators`).  **What is not**: capacity and expansion factor are the library
+defaults (`DEFAULT_CAPACITY` 8, factor 2), not the source's — the sentence "inherits the source's
+configuration" of C15 holds for the stack only as far as the allocators go; this deviation from the
+property text is recorded here (the function's own documentation promises neither).  The source is not changed: the function
 returns only the new stack.  The two are separate values afterwards (aliasing at the C level is
 answered by the correspondence runs, which observe both stacks after every operation on either). -/
 namespace CC.Properties.C15Stack
@@ -18,18 +21,30 @@ theorem filter_exact (p : Nat → Bool) (s : Stack) (dgrow : Nat → Nat) (dexGe
     (((s.filter p dgrow dexGe m).1 = .errAlloc ∨ (s.filter p dgrow dexGe m).1 = .errMaxCapacity ∨
         (s.filter p dgrow dexGe m).1 = .errInvalidCapacity) ∧ s.abs ≠ [] ∧
       (s.filter p dgrow dexGe m).2.1 = none ∧
-      (s.filter p dgrow dexGe m).2.2.2.live = m.live ∧ (s.filter p dgrow dexGe m).2.2.2.fault = m.fault) ∨
+      Arr.own s.triple (s.filter p dgrow dexGe m).2.2.2 = Arr.own s.triple m ∧ (s.filter p dgrow dexGe m).2.2.2.fault = m.fault) ∨
     ((s.filter p dgrow dexGe m).1 = .ok ∧ s.abs ≠ [] ∧
       ∃ r, (s.filter p dgrow dexGe m).2.1 = some r ∧ r.abs = s.abs.filter p ∧ r.Inv ∧ r.v.grow = dgrow ∧
         (s.filter p dgrow dexGe m).2.2.1 = s.abs ∧
-        (s.filter p dgrow dexGe m).2.2.2.live = m.live + 3 ∧ (s.filter p dgrow dexGe m).2.2.2.fault = m.fault) :=
+        Arr.own s.triple (s.filter p dgrow dexGe m).2.2.2 = Arr.own s.triple m + 3 ∧ (s.filter p dgrow dexGe m).2.2.2.fault = m.fault) :=
   Stack.filter_spec p s dgrow dexGe m hinv
+
+/-- the result carries the source's allocator triple (header and array), and the *default* growth
+function — not the source's -/
+theorem filter_inherits_allocators (p : Nat → Bool) (s : Stack) (dgrow : Nat → Nat) (dexGe : Nat → Bool) (m : Mem)
+    (hinv : s.Inv) (r : Stack) (hr : (s.filter p dgrow dexGe m).2.1 = some r) :
+    r.triple = s.triple ∧ r.v.triple = s.triple ∧ r.Coh ∧ r.v.grow = dgrow := by
+  obtain ⟨t1, t2⟩ := Stack.filter_triple p s dgrow dexGe m r hr
+  refine ⟨t1, t2, by unfold Stack.Coh; rw [t1, t2], ?_⟩
+  rcases Stack.filter_spec p s dgrow dexGe m hinv with ⟨_, _, hn, _⟩ | ⟨_, _, hn, _⟩ | ⟨_, _, r', h1, _, _, h4, _⟩
+  · rw [hn] at hr; simp at hr
+  · rw [hn] at hr; simp at hr
+  · rw [h1] at hr; simp only [Option.some.injEq] at hr; rw [← hr]; exact h4
 
 /-- **the result can grow**: a push on the filtered stack succeeds whenever the allocator does not
 refuse and puts the element on top of the filtered content -/
 theorem derived_can_grow (p : Nat → Bool) (s : Stack) (dgrow : Nat → Nat) (dexGe : Nat → Bool) (m m' : Mem)
-    (hinv : s.Inv) (r : Stack) (hr : (s.filter p dgrow dexGe m).2.1 = some r) (x : Nat) (hlive : 0 < m'.live)
-    (halloc : m'.alloc.1 = true) (hlim : ¬ r.v.AtLimit) :
+    (hinv : s.Inv) (r : Stack) (hr : (s.filter p dgrow dexGe m).2.1 = some r) (x : Nat)
+    (halloc : (m'.allocT r.v.triple).1 = true) (hlim : ¬ r.v.AtLimit) :
     (r.push x m').1 = .ok ∧ (r.push x m').2.1.abs = s.abs.filter p ++ [x] := by
   rcases Stack.filter_spec p s dgrow dexGe m hinv with ⟨_, _, hn, _⟩ | ⟨_, _, hn, _⟩ | ⟨_, _, r', h1, h2, h3, _⟩
   · rw [hn] at hr; simp at hr
@@ -46,13 +61,23 @@ theorem derived_history (r : Stack) (ops : List Spec.Seq.SOp) (m : Mem) (hinv : 
     (r.run ops m).2.1.abs = (Spec.Seq.srun r.abs ops ((r.run ops m).1.map Spec.Seq.Out.blocked)).2 :=
   ⟨(C09Stack.history_refines ops r m hinv).1, (C09Stack.history_refines ops r m hinv).2.1⟩
 
-/-- **independence**: in the model source and result are separate values, so a history run on one
+/-- **independence** — true by the value semantics of the model (which cannot express shared memory;
+the harness carries the C-level claim): in the model source and result are separate values, so a history run on one
 component of the pair (source, result) returns the other component as it was — whatever the history,
 including destroying the first one.  (That the C objects share no memory is what the harness checks:
 both are observed after every operation on either, under ASan.) -/
-theorem independent (s r : Stack) (ops : List Spec.Seq.SOp) (m : Mem) :
+theorem independent_model (s r : Stack) (ops : List Spec.Seq.SOp) (m : Mem) :
     (fun (pr : Stack × Stack) => ((pr.1.run ops m).2.1, pr.2)) (s, r) = ((s.run ops m).2.1, r) ∧
     (fun (pr : Stack × Stack) => (pr.1, (pr.2.run ops m).2.1)) (s, r) = (s, (r.run ops m).2.1) :=
   ⟨rfl, rfl⟩
+
+/-! Non-vacuity: a source stack with factor 1.5 and capacity 4; the result has the default growth
+function and can grow past its default capacity -/
+example :
+    let s : Stack := ⟨Arr.mk 3 4 [2, 3, 4, 0] (fun c => c * 3 / 2) .conf, .conf⟩
+    let f := s.filter (fun v => v % 2 == 0) (fun c => 2 * c) (fun _ => false) { live := 3 }
+    s.Inv ∧ f.1 = .ok ∧ (f.2.1.map (·.abs)) = some [2, 4] ∧ (f.2.1.map (·.v.capacity)) = some 8 ∧
+    (f.2.1.map fun r => (r.run ((List.range 9).map fun i => Spec.Seq.SOp.push i) f.2.2.2).2.1.v.capacity) = some 16 := by
+  decide
 
 end CC.Properties.C15Stack
